@@ -171,6 +171,59 @@ NOT_SENDING = {"address", "api_version", "cached_name", "expected_name", "log_na
                "connect", "start_connection", "finish_connection", "disconnect"}
 
 
+def auto_recipe(name: str) -> Callable[[Any, Any, Any], Any] | None:
+    """A public method the recipe table does not know (added after the table was written): called with arguments guessed from its signature -
+    a recording callable for every callback-like parameter, neutral values otherwise - so that what it writes and subscribes to is still seen."""
+    from aioesphomeapi import APIClient
+
+    fn = getattr(APIClient, name, None)
+    if fn is None or not callable(fn) or isinstance(inspect.getattr_static(APIClient, name), property):
+        return None
+    try:
+        sig = inspect.signature(fn)
+    except (TypeError, ValueError):
+        return None
+
+    def recipe(cli: Any, sim: Any, rec: Any) -> Any:
+        args: list[Any] = []
+        kwargs: dict[str, Any] = {}
+        for pname, prm in list(sig.parameters.items())[1:]:
+            if prm.kind in (prm.VAR_POSITIONAL, prm.VAR_KEYWORD) or prm.default is not prm.empty:
+                continue
+            ann = str(prm.annotation)
+            if pname.startswith(("on_", "handle", "callback")) or "Callable" in ann:
+                if "Coroutine" in ann or "Awaitable" in ann:
+                    async def acb(*a: Any, **k: Any) -> Any:
+                        rec(name, *a)
+                        return None
+                    val: Any = acb
+                else:
+                    val = lambda *a, **k: rec(name, *a)  # noqa: E731
+            elif "int" in ann:
+                val = 1
+            elif "float" in ann:
+                val = 1.0
+            elif "bool" in ann:
+                val = True
+            elif "bytes" in ann:
+                val = b"x"
+            elif "str" in ann:
+                val = "x"
+            elif "list" in ann or "Iterable" in ann:
+                val = []
+            elif "dict" in ann:
+                val = {}
+            else:
+                val = None
+            if prm.kind is prm.KEYWORD_ONLY:
+                kwargs[pname] = val
+            else:
+                args.append(val)
+        return getattr(cli, name)(*args, **kwargs)
+
+    return recipe
+
+
 def public_methods() -> list[str]:
     from aioesphomeapi import APIClient
 
@@ -220,8 +273,12 @@ def run(framing: str, api: tuple[int, int] = (1, 10), on_from_pb: Callable[[Any,
                 if name in NOT_SENDING:
                     continue
                 if name not in R:
-                    out["unswept"].append(name)
-                    continue
+                    auto = auto_recipe(name)
+                    if auto is None:
+                        out["unswept"].append(name)
+                        continue
+                    out.setdefault("auto_swept", []).append(name)
+                    R[name] = auto
                 n_rx = len(dconn.received)
                 n_batches = len(sim.send_batches)
                 n_sub = len(sim.conns[0].subscribed)
